@@ -11,3 +11,6 @@ import PV.Model.Grouping
 import PV.Properties.C10
 import PV.Model.TED
 import PV.Properties.C07
+import PV.Model.Gate
+import PV.Generated.GateFacts
+import PV.Properties.C19
